@@ -66,8 +66,20 @@ def run(prog, rep, tier):
     if len(draws) == 1:
         b, extra = api.bind_slots(api.SLOTS["numpy.random.normal"], draws[0].args, draws[0].kwargs)
         ok = b.get("loc") == ("param", "mean") and b.get("scale") is not None and is_sd_of(b["scale"], ("param", "var")) and b.get("size") == ("param", "n")
+    if not ok:
+        # the same law as a location-scale transform of one standard draw (mean + var**0.5 * standard_normal(n)): decided on mean and standard deviation
+        from .C20 import law_of
+        gl = [c for c in facts if c.kind == "call" and c.callkind == "ext" and c.target.startswith("numpy.random.")]
+        lw = law_of("normal", res, gl[0]) if len(gl) == 1 else None
+        if lw is not None and lw[0]:
+            ok = True
+        elif lw is not None:
+            rep.bad("UNIT.noise-normal", fwhere(f3, gl[0].node), "noise.normal(mean, var) returns a draw with %s, not mean `mean` and standard deviation var**0.5" % lw[1])
+            ok = None
     opaque = [c for c in facts if c.kind == "call" and (c.callkind == "opaque" or c.target in ("getattr", "operator.attrgetter", "operator.methodcaller"))]
-    if not draws and opaque:
+    if ok is None:
+        pass
+    elif not draws and opaque:
         rep.unk("UNIT.noise-normal", fwhere(f3), "noise.normal calls a sampler that is looked up at run time (%s): what it is handed is not read" % opaque[0].target)
         ok = None
     if ok is not None:
